@@ -57,3 +57,13 @@ Theorem C01_imap_yields_in_input_order :
   Permutation arrived (seq 0 n) -> imap_yields A (map (fun i => (i, f i)) arrived) = map f (seq 0 n).
 Proof. exact imap_yields_in_input_order. Qed.
 Print Assumptions C01_imap_yields_in_input_order.
+
+(* (6) on a pool that is used for several calls -- map-family calls with other functions and parameters, setters,
+   shutdowns, apply_async in between -- every completed call runs with ITS OWN function, ordering mode, lifespan and
+   extras (history model; the effects of every pool method, incl. "a worker forgets apply mode before its next
+   task" and "changed parameters are recorded and shipped", are read off the source) *)
+From Mpv Require Import GenParams OrderHist Hist HistProofs.
+Theorem C01_every_call_runs_with_its_own_function :
+  forall l k h, Forall good_obs (hrun (hinit l k) h).
+Proof. exact call_uses_own_params. Qed.
+Print Assumptions C01_every_call_runs_with_its_own_function.
